@@ -9,7 +9,8 @@ from harness import apr, asmfam, tlc
 def keyfn(p, clause, detail):
     for s in p["body"]:
         if s["k"] == "incbin":
-            return f"{clause}/incbin/len{len(s['bs'])}/org{p['body'][0]['e']['v']:x}"
+            org = next((x["e"]["v"] for x in p["body"] if x["k"] == "stareq" and x["e"]["k"] == "num"), 0)
+            return f"{clause}/incbin/len{len(s['bs'])}/org{org:x}"
         if s["k"] == "ascii":
             return f"{clause}/ascii/len{len(s['s'])}"
     ds = [s for s in p["body"][4:] if s["k"] == "data"][:2]
